@@ -11,6 +11,7 @@ import LpProofs.C20.Cover2
 -- character level of the export/import round trip (parseDec ∘ render, tokenizer, bytes)
 import LpProofs.C20.Bytes
 import LpProofs.C20.Chunk
+import LpProofs.C20.Ragged
 namespace Lp.C20
 
 /-! ## Initialisation order -/
